@@ -8,8 +8,12 @@ def cubes(tier):
     if tier == "thorough":
         out += [dict(nfiles=2, listing=l, dst=d, prop="C11", verify=True, corrupt=True, _w=2) for l in ([[0, 1], [0]], [[0], [1]])
                 for d in ("local", "base", "remote")]
+        out += [dict(nfiles=2, listing=l, dst=d, prop="C11", verify=True, corrupt=True, _w=2) for l in ([[0, 1]], [[]]) for d in ("local", "base", "remote")]
     else:
-        out += [dict(nfiles=2, listing=[[0, 1], [0]], dst=d, prop="C11", verify=True, corrupt=True, _w=2) for d in ("local", "base")]
+        out += [dict(nfiles=2, listing=[[0, 1], [0]], dst="local", prop="C11", verify=True, corrupt=True, _w=2)]
+        # one batch holding both files (a single directory / two loose files): which of the two fails and which is corrupt is
+        # symbolic, so the outcome does not depend on the set-iteration order inside the batch
+        out += [dict(nfiles=2, listing=l, dst=d, prop="C11", verify=True, corrupt=True, _w=2) for l, d in (([[0, 1]], "local"), ([[]], "base"))]
     return out
 
 
